@@ -102,7 +102,17 @@ fn judge_pipe(ctx: &Ctx, cmd: &str, args: &[String], stdin: Option<&str>, st: &m
     }
     let outs: Vec<Vec<String>> = vec![a(&["--output-format", "semver"]), a(&["--output-format", "pep440"]), a(&["--output-template", "{{ semver }}|{{ pep440 }}"]),
         a(&["--output-template", "{{ epoch }}/{{ major }}.{{ minor }}.{{ patch }}/{{ pre_release.label }}{{ pre_release.number }}/{{ post }}/{{ dev }}/{{ distance }}/{{ dirty }}/{{ bumped_branch }}/{{ bumped_commit_hash_short }}/{{ last_tag_version }}"]),
-        a(&["--output-template", "{{ semver_obj.docker }} {{ pep440_obj.base_part }}{{ pep440_obj.pre_release_part }}"])];
+        a(&["--output-template", "{{ semver_obj.docker }} {{ pep440_obj.base_part }}{{ pep440_obj.pre_release_part }}"]),
+        a(&["--output-template", "{{ semver_obj.base_part }}|{{ semver_obj.pre_release_part }}|{{ semver_obj.build_part }}|{{ pep440_obj.build_part }}"])];
+    // within one run the template variables semver / pep440 are what --output-format prints for the same arguments (an
+    // expectation that does not depend on a second run in this process sharing state with the first)
+    {
+        let run = |o: &[String]| { let mut d = first.clone(); d.extend(o.iter().cloned()); zv::run_cli(&d, stdin) };
+        if let (Ok(Res::Ok(sv)), Ok(Res::Ok(pv)), Ok(Res::Ok(t))) = (run(&outs[0]), run(&outs[1]), run(&outs[2])) {
+            st.inc("template_vs_formatter_checks");
+            if t != format!("{sv}|{pv}") { ctx.violation("template_version_differs_from_formatter", key.clone(), case.clone(), format!("template prints {t:?}, --output-format prints {sv:?} and {pv:?}")); }
+        }
+    }
     for o in outs {
         st.inc("pipe_renders");
         let mut direct = first.clone();
@@ -216,6 +226,23 @@ fn main() {
         args.extend(extra.iter().cloned());
         pipe_jobs.push(("flow", args, None));
     }}}}
+    // schemas with literal components (only --schema-ron or a stdin document can carry them) x index-addressed overrides and
+    // bumps that rewrite a literal - the schema changes, the variables do not - alone and together with a variable operation
+    let lit_start = pipe_jobs.len();
+    {
+        let lit = "(core:[var(Major),var(Minor),var(Patch),uint(5)],extra_core:[var(PreRelease),str(\"x\"),var(Post)],build:[str(\"nightly\"),uint(1),var(BumpedBranch)])";
+        let lit_doc = format!("(schema:{lit},vars:(major:Some(1),minor:Some(2),patch:Some(3),pre_release:Some((label:Rc,number:Some(4))),post:Some(5),bumped_branch:Some(\"main\"),dirty:Some(false)))");
+        let idx: Vec<Vec<String>> = vec![a(&["--build", "0=stable"]), a(&["--build", "1=7"]), a(&["--bump-build", "1=4"]), a(&["--bump-build", "0=weekly"]), a(&["--core", "3=9"]), a(&["--bump-core", "~1"]), a(&["--extra-core", "1=zz"]), a(&["--bump-extra-core", "1=yy"]), a(&["--core=-1=0"])];
+        let vars_ops: Vec<Vec<String>> = vec![vec![], a(&["--bump-minor"]), a(&["--post", "9"]), a(&["--bumped-branch", "topic"])];
+        for i in idx.iter().chain([vec![]].iter()) { for v in &vars_ops {
+            let ops: Vec<String> = i.iter().chain(v.iter()).cloned().collect();
+            let mut a1 = a(&["--source", "none", "--tag-version", "1.2.3-rc.4", "--schema-ron", lit]); a1.extend(ops.iter().cloned());
+            pipe_jobs.push(("version", a1, None));
+            let mut a2 = a(&["--source", "stdin"]); a2.extend(ops.iter().cloned());
+            pipe_jobs.push(("version", a2, Some(lit_doc.clone())));
+        }}
+    }
+    let lit_end = pipe_jobs.len();
     // documents nested deeper than `--custom` can produce: whatever the reader accepts the writer must be able to emit again
     for d in [100usize, 128, 140, 147, 148, 149, 150, 200, 298, 299, 300, 1000] { for array in [false, true] {
         let doc = format!("(schema:(core:[var(Major)],extra_core:[],build:[]),vars:(major:Some(1),custom:{}))", nest(d, array));
@@ -331,17 +358,25 @@ fn main() {
 
     // process conformance: the real pipe through two binaries
     let mut s5 = Stats::default();
-    for (cmd, args, stdin) in pipe_jobs.iter().step_by((pipe_jobs.len() / 40).max(1)) {
+    // (a strided slice of the pipe jobs and every literal-schema job; each process starts cold, which the in-process runs do not)
+    let slice: Vec<&(&str, Vec<String>, Option<String>)> = pipe_jobs.iter().enumerate().filter(|(i, _)| i % (pipe_jobs.len() / 40).max(1) == 0 || (*i >= lit_start && *i < lit_end)).map(|(_, j)| j).collect();
+    let s5p = slice.par_iter().map(|(cmd, args, stdin)| {
+        let mut s5 = Stats::default();
         let mut first = vec![cmd.to_string()]; first.extend(args.iter().cloned());
         let mut tz = first.clone(); tz.extend(a(&["--output-format", "zerv"]));
         let o1 = zv::run_bin(&tz, stdin.as_deref(), &[], None);
-        if o1.status != 0 { continue; }
-        let o2 = zv::run_bin(&["version", "--source", "stdin", "--output-format", "semver"], Some(&o1.stdout_str()), &[], None);
-        let mut dr = first.clone(); dr.extend(a(&["--output-format", "semver"]));
-        let o3 = zv::run_bin(&dr, stdin.as_deref(), &[], None);
-        s5.inc("process_conformance_cases");
-        if o2.stdout != o3.stdout || o2.status != o3.status { ctx.violation("binary_pipe_differs", first.join(" "), json!({"kind":"proc"}), format!("piped {:?} direct {:?}", o2.stdout_str(), o3.stdout_str())); }
-    }
+        if o1.status != 0 { return s5; }
+        for o in [a(&["--output-format", "semver"]), a(&["--output-template", "{{ semver }}|{{ pep440 }}|{{ semver_obj.build_part }}|{{ pep440_obj.base_part }}"])] {
+            let mut pa = a(&["version", "--source", "stdin"]); pa.extend(o.iter().cloned());
+            let o2 = zv::run_bin(&pa, Some(&o1.stdout_str()), &[], None);
+            let mut dr = first.clone(); dr.extend(o.iter().cloned());
+            let o3 = zv::run_bin(&dr, stdin.as_deref(), &[], None);
+            s5.inc("process_conformance_cases");
+            if o2.stdout != o3.stdout || o2.status != o3.status { ctx.violation("binary_pipe_differs", format!("{} {}", first.join(" "), o.join(" ")), json!({"kind":"proc"}), format!("piped {:?} direct {:?}", o2.stdout_str(), o3.stdout_str())); }
+        }
+        s5
+    }).reduce(Stats::default, Stats::merge);
+    s5 = s5.merge(s5p);
     // large documents through the real pipe (the in-process driver hands stdin over as a string and would not see a bounded
     // reader): custom arrays of 1 000 / 30 000 elements under 10 levels of nesting emit 50 KB / 1.5 MB of pretty RON
     for n in [1000usize, 30000, 60000] {
